@@ -1068,9 +1068,14 @@ impl C03 {
 						// (parts of one payment share the hash: the downstream HTLC belonging to this upstream HTLC is the
 						// one whose amount is the upstream amount less exactly the forwarder's advertised fee; without
 						// such a candidate a single unconsumed downstream failure of the payment is taken)
-						let cfg = &sim.w.configs[from].channel_config;
-						let (fb, fp) = (cfg.forwarding_fee_base_msat as u64, cfg.forwarding_fee_proportional_millionths as u64);
-						let exact_key = self.htlcs.iter().find(|(k, d)| k.1 == from && d.hash == h.hash && d.fail_delivered && !d.fail_consumed && d.amt + fb + d.amt * fp / 1_000_000 == h.amt).map(|(k, _)| *k);
+						// the forwarder's fee is the policy of the outgoing channel named in the onion; the library may send the
+						// HTLC over another channel to the same peer, and channels of one node may carry different policies, so
+						// any of the forwarder's channel policies (or its default, for a channel it no longer lists) is accepted
+						let dflt = &sim.w.configs[from].channel_config;
+						let mut pols: Vec<(u64, u64)> = sim.w.nodes[from].node.list_channels().iter().filter_map(|c| c.config).map(|c| (c.forwarding_fee_base_msat as u64, c.forwarding_fee_proportional_millionths as u64)).collect();
+						pols.push((dflt.forwarding_fee_base_msat as u64, dflt.forwarding_fee_proportional_millionths as u64));
+						let fee_matches = |down_amt: u64, up_amt: u64| pols.iter().any(|(fb, fp)| down_amt + fb + down_amt * fp / 1_000_000 == up_amt);
+						let exact_key = self.htlcs.iter().find(|(k, d)| k.1 == from && d.hash == h.hash && d.fail_delivered && !d.fail_consumed && fee_matches(d.amt, h.amt)).map(|(k, _)| *k);
 						let siblings = self.htlcs.iter().filter(|(k, u)| k.0 == chan && k.1 == to && u.hash == h.hash).count();
 						let cands: Vec<_> = self.htlcs.iter().filter(|(k, d)| k.1 == from && d.hash == h.hash && d.fail_delivered && !d.fail_consumed).map(|(k, _)| *k).collect();
 						let pick_key = exact_key.or(if siblings == 1 && cands.len() == 1 { Some(cands[0]) } else { None });
